@@ -58,6 +58,8 @@ def run_check(P, tier, seed, replay=None):
     t0 = time.time()
     rng = random.Random(seed)
     prop = P.PROP
+    evid = getattr(P, "EVIDENCE_ID", prop)     # file names of evidence / replay / regression corpus (parts of one property differ here)
+    part = getattr(P, "PART", None)            # known_findings entries may name the part (module) that can replay them
     broken = []          # (kind, detail, log)
     notes = []
     hp = getattr(P, "HARNESS", {})
@@ -122,8 +124,8 @@ def run_check(P, tier, seed, replay=None):
 
     if not rh.ok:
         # nothing can be observed on the implementation
-        path = write_replay(prop, seed, {"property": prop, "broken": [b[:2] for b in broken], "log": broken[-1][2]})
-        write_evidence(prop, tier, seed, {"obligations": max(n_thm, 1), "discharged": n_ok, "checker_cmd": "make " + vo,
+        path = write_replay(evid, seed, {"property": prop, "broken": [b[:2] for b in broken], "log": broken[-1][2]})
+        write_evidence(evid, tier, seed, {"obligations": max(n_thm, 1), "discharged": n_ok, "checker_cmd": "make " + vo,
                                           "trusted_base": TRUSTED_BASE, "evaluations": 0, "distinct_nontrivial": 0,
                                           "explanation": "harness did not build"}, [], time.time() - t0, 1)
         log("VIOLATION property=%s replay=%s no-failing-input-found" % (prop, path))
@@ -145,7 +147,7 @@ def run_check(P, tier, seed, replay=None):
     # ---- generate and run ----------------------------------------------------------------
     cases = list(P.gen_cases(rng, tier))
     # regression corpus first
-    corp = os.path.join(VERIF, "corpus", "regressions", prop + ".jsonl")
+    corp = os.path.join(VERIF, "corpus", "regressions", evid + ".jsonl")
     if os.path.exists(corp):
         pre = [Case.from_json(json.loads(l)) for l in open(corp) if l.strip()]
         cases = pre + cases
@@ -196,6 +198,8 @@ def run_check(P, tier, seed, replay=None):
     for e in known_findings(prop):
         if e.get("kind") != "known":
             continue
+        if e.get("part") != part:
+            continue               # replayed (and printed) by the part of the check that owns its witness
         wc = [Case.from_json(j) for j in e.get("witness_cases", [])]
         if wc:
             wbin = extra_bins.get(e.get("witness_build"), harness) if e.get("witness_build") else harness
@@ -272,14 +276,14 @@ def run_check(P, tier, seed, replay=None):
     }
     if hasattr(P, "extra_coverage"):
         cov.update(P.extra_coverage(cases, impl, model))
-    write_evidence(prop, tier, seed, cov, getattr(P, "ASSUMPTIONS", []), time.time() - t0, 1 if violation else 0)
+    write_evidence(evid, tier, seed, cov, getattr(P, "ASSUMPTIONS", []), time.time() - t0, 1 if violation else 0)
 
     for l in kf_lines:
         log(l)
     log("%s: %d cases, %d distinct non-trivial, %d theorems (%d closed), %d divergences, %d oracle failures, %.1fs"
         % (prop, len(cases), len(distinct), n_thm, n_ok, len(divergences), len(failures), time.time() - t0))
     if violation:
-        path = write_replay(prop, seed, violation)
+        path = write_replay(evid, seed, violation)
         if found_by == "none":
             log("VIOLATION property=%s replay=%s no-failing-input-found" % (prop, path))
         else:
